@@ -84,9 +84,22 @@ def _decl(draw, i, nodes, allow_shapes=True):
     return [d for d in decl if d[0] != "opt"] + [d for d in decl if d[0] == "opt"]
 
 
+VALUE_KINDS = ["t"] * 8 + ["false", "zero", "estr", "elist", "edict"]
+SEED_KINDS = ["t"] * 5 + ["false", "zero", "elist"]
+
+
+def falsy(kind):
+    return {"false": False, "zero": 0, "estr": "", "elist": [], "edict": {}, "none": None}[kind]
+
+
+def seed_value(case, i):
+    kind = case.get("seed_vals", {}).get(str(i), "t")
+    return ("seed", i) if kind == "t" else falsy(kind)
+
+
 @st.composite
 def graphs(draw, min_nodes=2, max_nodes=10, faults=True, types=None, seeds=True, disable=True,
-           multi=True, parts=1):
+           multi=True, parts=1, none_seeds=False):
     types = types or ALL_TYPES
     n = draw(st.integers(min_nodes, max_nodes))
     nodes = []
@@ -126,12 +139,17 @@ def graphs(draw, min_nodes=2, max_nodes=10, faults=True, types=None, seeds=True,
                 node["multi"] = draw(st.sampled_from([0, 0, 1, 2, 3, 4]))
         elif t not in ("regpoint", "parser"):
             node["decl"] = _decl(draw, i, view)
+        if t in ("plain", "component", "combiner", "condition"):
+            # what the body returns: a tuple embedding its arguments, or a falsy but perfectly valid value
+            node["val"] = draw(st.sampled_from(VALUE_KINDS))
         nodes.append(node)
     for nd in nodes:
         nd.pop("attached", None)
     case = {"nodes": nodes, "seeded": [], "disabled": [], "store_skips": draw(st.booleans())}
     if seeds:
         case["seeded"] = sorted(draw(st.sets(st.integers(0, n - 1), max_size=3)))
+        kinds = SEED_KINDS + (["none", "none"] if none_seeds else [])
+        case["seed_vals"] = dict((str(i), draw(st.sampled_from(kinds))) for i in case["seeded"])
     if disable:
         case["disabled"] = sorted(draw(st.sets(st.integers(0, n - 1), max_size=2)))
     return case
@@ -240,6 +258,8 @@ def build(case):
                 return [("e", _i, k) for k in range(_nd["multi"])]
             if elem is not None:
                 return ("pe", _i, digest(args))
+            if _nd.get("val", "t") != "t":
+                return falsy(_nd["val"])
             return ("v", _i, digest(args))
 
         def bind(i=i, nd=nd, t=t, flat=flat, name=name):
@@ -327,7 +347,7 @@ def model(case, active=None):
     ex = Expect()
     val = ex.val
     for i in case["seeded"]:
-        val[i] = ("seed", i)
+        val[i] = seed_value(case, i)
     for i, nd in enumerate(nodes):
         if i in val:
             continue
@@ -372,7 +392,8 @@ def model(case, active=None):
                     if f != "skip" and not nd["coe"]:
                         failed_all = True
                         break
-                ex.invoked[i] = calls
+                if calls:
+                    ex.invoked[i] = calls
                 if failed_all or not results:
                     ex.skipped_self.add(i)
                 else:
@@ -386,6 +407,8 @@ def model(case, active=None):
                 val[i] = ("RULE", "pass", "K%d" % i, digest(args))
             elif t == "datasource" and nd["multi"]:
                 val[i] = [("e", i, k) for k in range(nd["multi"])]
+            elif nd.get("val", "t") != "t":
+                val[i] = falsy(nd["val"])
             else:
                 val[i] = ("v", i, digest(args))
         else:
@@ -445,7 +468,7 @@ def linear_extension(case, active, prio):
     return done
 
 
-DRIVERS = ["run_full", "run_targets", "run_components", "run_subset", "run_single_target"]
+DRIVERS = ["run_full", "run_targets", "run_components", "run_subset", "run_single_target", "run_group"]
 
 
 @st.composite
@@ -480,7 +503,7 @@ def execute(case, b, drv, observers=()):
     broker = dr.Broker()
     broker.store_skips = case["store_skips"]
     for i in case["seeded"]:
-        broker[comps[i]] = ("seed", i)
+        broker[comps[i]] = seed_value(case, i)
     for i in case["disabled"]:
         dr.set_enabled(comps[i], False)
 
@@ -506,6 +529,12 @@ def execute(case, b, drv, observers=()):
             graph = dict((c, set(comps[j] for j in dep_set(nodes[i]))) for i, c in enumerate(comps))
             order = [comps[i] for i in linear_extension(case, range(len(comps)), drv["prio"])]
             dr.run_components(order, graph, broker)
+        elif kind == "run_group":
+            # the graph dr.run() uses when it is given a component group: the registry's own
+            # per-group copy of the dependencies (restricted to this case's components)
+            reg = dr.COMPONENTS[dr.GROUPS.single]
+            graph = dict((c, set(reg[c])) for c in comps)
+            dr.run(graph, broker=broker)
         elif kind in ("run_incremental", "run_all"):
             graph = dict((c, set(comps[j] for j in dep_set(nodes[i]))) for i, c in enumerate(comps))
             if kind == "run_incremental":
